@@ -28,6 +28,7 @@ THEOREMS = [
     "VK.sampleK_mass",
     "VK.C03_sample_inclusion",
     "VK.kernel_random_sample_size",
+    "VK.C03_random_direct",
 ]
 RULE = ("cases = (a) direct calls of fractional_transfer / random_transfer on ballot lists with duplicates, bullet votes "
         "(exhausting), ballots not led by the winner, ballots listing the winner lower down, 20% with tied lower "
